@@ -2,7 +2,9 @@ package props
 
 import (
 	"fmt"
+	"net"
 	"sync"
+	"sync/atomic"
 	"testing"
 	"time"
 
@@ -337,7 +339,7 @@ func TestC09(t *testing.T) {
 func TestC09Lifetime(t *testing.T) {
 	lab.SkipIfReplayOther(t, "lifetime")
 	st := lab.GetStats("C09", "lifetime")
-	st.SetRule("one long-lived server, N connections opened and closed by 16 client goroutines (N = 3000 quick / 100000 thorough per shard); every connection's ConnectionID is positive, never seen before on this server and the one OnClose later reports; each connection is a distinct non-trivial case")
+	st.SetRule("one long-lived server: four connections that stay open for its whole life, then 70000 (thorough 140000) connections that connect and reset without a request (the connection counter passes 2^16), then N connections opened, served and closed by 16 client goroutines (N = 3000 quick / 100000 thorough per shard); the long-lived ones report the same ID at the end; every connection's ConnectionID is positive, never seen before on this server and the one OnClose later reports; each connection is a distinct non-trivial case")
 	defer lab.FlushAll()
 	if lab.ReplayInto(t, st, "lifetime", func(c struct{}, st *lab.Stats) *lab.Fail { return nil }) {
 		return
@@ -367,6 +369,59 @@ func TestC09Lifetime(t *testing.T) {
 	var wg sync.WaitGroup
 	var fail *lab.Fail
 	const workers = 16
+	// four connections that live as long as the server: opened first, asked for their ID again at the end
+	type elder struct {
+		cl  *lab.Client
+		cid int
+	}
+	var elders []elder
+	for k := 0; k < 4; k++ {
+		cl, err := lab.Dial(srv.Addr)
+		if err != nil {
+			st.Inconclusive(err.Error())
+			return
+		}
+		defer cl.Abort()
+		msg := int64(2000000000 + k)
+		_ = cl.Send(simpleReq("search", msg).Bytes())
+		if _, err := cl.Next(10 * time.Second); err != nil {
+			st.Inconclusive("elder connection not served: " + err.Error())
+			return
+		}
+		mu.Lock()
+		cid := idOf[msg]
+		delete(idOf, msg)
+		if prev, dup := ids[cid]; dup && fail == nil {
+			fail = lab.Failf("connection-id-reused", "ConnectionID %d reported by long-lived connection #%d was already used by connection #%d", cid, k, prev)
+		}
+		ids[cid] = -1 - k
+		mu.Unlock()
+		elders = append(elders, elder{cl, cid})
+	}
+	// a long life in fast motion: connections that come and go without a request (connect, reset), enough of
+	// them to take the server's connection counter past 2^16
+	churn := 70000
+	if lab.Thorough() {
+		churn = 140000
+	}
+	var churned int64
+	for w := 0; w < workers; w++ {
+		wg.Add(1)
+		go func(w int) {
+			defer wg.Done()
+			for i := w; i < churn; i += workers {
+				c, err := net.DialTimeout("tcp", srv.Addr, 5*time.Second)
+				if err != nil {
+					time.Sleep(time.Millisecond)
+					continue
+				}
+				rst(c)
+				atomic.AddInt64(&churned, 1)
+			}
+		}(w)
+	}
+	wg.Wait()
+	st.ClassN("churned-connections-before", atomic.LoadInt64(&churned))
 	for w := 0; w < workers; w++ {
 		wg.Add(1)
 		go func(w int) {
@@ -397,6 +452,24 @@ func TestC09Lifetime(t *testing.T) {
 		}(w)
 	}
 	wg.Wait()
+	// the long-lived connections still carry the ID they started with
+	for k, e := range elders {
+		msg := int64(2000001000 + k)
+		_ = e.cl.Send(simpleReq("search", msg).Bytes())
+		if _, err := e.cl.Next(10 * time.Second); err != nil {
+			if fail == nil {
+				fail = lab.Failf("elder-not-served", "long-lived connection #%d (ConnectionID %d) is no longer served after %d later connections: %v", k, e.cid, atomic.LoadInt64(&churned)+int64(total), err)
+			}
+			continue
+		}
+		mu.Lock()
+		if cid := idOf[msg]; cid != e.cid && fail == nil {
+			fail = lab.Failf("connection-id-changed", "long-lived connection #%d reported ConnectionID %d at first and %d after %d later connections", k, e.cid, cid, atomic.LoadInt64(&churned)+int64(total))
+		}
+		delete(idOf, msg)
+		mu.Unlock()
+		e.cl.Abort()
+	}
 	_ = srv.Stop(20 * time.Second)
 	time.Sleep(50 * time.Millisecond)
 	mu.Lock()
